@@ -72,6 +72,7 @@ macro_rules! dispatch {
             "C05" => $f::<props::c05::C05>($($args),*),
             "C06" => $f::<props::c06::C06>($($args),*),
             "C14" => $f::<props::c14::C14>($($args),*),
+            "C17" => $f::<props::c17::C17>($($args),*),
             "C19" => $f::<props::c19::C19>($($args),*),
             other => {
                 eprintln!("unknown property {other}");
